@@ -58,7 +58,54 @@ def facts_at(f: Func, sub: ast.AST) -> List[Tuple[ast.AST, bool]]:
         out += atoms(cond, pol)
     # facts established inside the same boolean expression / conditional expression (a and b -> b sees a)
     out += _local_facts(n.ast, sub)
-    return out
+    # a condition that was given a name (`on_disk = not isinstance(x, MemIO)` ... `if on_disk:`) says what its definition says
+    extra: List[Tuple[ast.AST, bool]] = []
+    seen = set()
+    work = [(c, p) for c, p in out if isinstance(c, ast.Name)]
+    while work:
+        c, p = work.pop()
+        if c.id in seen:
+            continue
+        seen.add(c.id)
+        v = _named_condition(f, c.id, n)
+        if v is not None:
+            got = atoms(v, p)
+            extra += got
+            work += [(c2, p2) for c2, p2 in got if isinstance(c2, ast.Name)]
+    return out + extra
+
+
+def _named_condition(f: Func, name: str, at: Node) -> Optional[ast.AST]:
+    """the defining expression of a local that names a condition: assigned exactly once in the function (not a parameter, not a loop variable), by a
+    boolean-looking expression whose own names are not re-assigned anywhere, on a statement that dominates the use."""
+    if name in f.params:
+        return None
+    defs = [x for x in walk(f.node) if isinstance(x, (ast.Assign, ast.AnnAssign, ast.AugAssign, ast.For, ast.NamedExpr, ast.With, ast.ExceptHandler, ast.comprehension))
+            and any(isinstance(y, ast.Name) and y.id == name and isinstance(y.ctx, ast.Store) for y in ast.walk(x if not isinstance(x, ast.For) else x.target))]
+    if len(defs) != 1 or not isinstance(defs[0], (ast.Assign, ast.AnnAssign)):
+        return None
+    d = defs[0]
+    tgts = d.targets if isinstance(d, ast.Assign) else [d.target]
+    if len(tgts) != 1 or not isinstance(tgts[0], ast.Name) or d.value is None:
+        return None
+    v = d.value
+    boolish = isinstance(v, (ast.Compare, ast.BoolOp)) or (isinstance(v, ast.UnaryOp) and isinstance(v.op, ast.Not)) or (
+        isinstance(v, ast.Call) and ((isinstance(v.func, ast.Name) and v.func.id in ("isinstance", "any", "all", "bool", "callable", "hasattr")) or
+                                     (isinstance(v.func, ast.Attribute) and (v.func.attr.startswith(("is_", "has_", "needs_", "exists", "startswith", "endswith")) or v.func.attr in ("empty",)))))
+    if not boolish:
+        return None
+    stores = {}
+    for x in walk(f.node):
+        if isinstance(x, ast.Name) and isinstance(x.ctx, ast.Store):
+            stores[x.id] = stores.get(x.id, 0) + 1
+    for y in ast.walk(v):
+        if isinstance(y, ast.Name) and isinstance(y.ctx, ast.Load) and stores.get(y.id, 0) > 1:
+            return None
+    cfg = cfg_of(f.node)
+    dn = stmt_node_containing(cfg, d)
+    if dn is None or not cfg.dominates(dn, at):
+        return None
+    return v
 
 
 def _local_facts(root: Optional[ast.AST], sub: ast.AST) -> List[Tuple[ast.AST, bool]]:
